@@ -43,7 +43,9 @@ func newKnownEnv(t *testing.T) *knownEnv {
 }
 
 func (e *knownEnv) write(f func(ctx context.Context, tx db.Transaction) error) error {
-	return e.s.client.Write(e.ctx, f)
+	_, err := safely(func() (none, error) { return none{}, e.s.client.Write(e.ctx, f) })
+
+	return err
 }
 
 func (e *knownEnv) mustWrite(f func(ctx context.Context, tx db.Transaction) error) {
@@ -336,8 +338,43 @@ func TestKnown_F_C08c(t *testing.T) {
 		fmt.Sprintf("message with flag \"Foo\": RemoveFlagFromMessages([m], \"foo\") leaves %q (flag sets are case-insensitive; state/updates.go selects the messages case-insensitively and passes the client's spelling)", got[0].FlagSet.ToSlice()))
 }
 
+// F-C08e: SetFlagsOnMessages with the empty flag set (what STORE FLAGS () needs) must clear the flags.
+func TestKnown_F_C08e(t *testing.T) {
+	e := newKnownEnv(t)
+	r1, r2 := plainReq(1, "x", `\Seen`), plainReq(2, "y")
+
+	e.mustWrite(func(ctx context.Context, tx db.Transaction) error { return tx.CreateMessages(ctx, r1, r2) })
+
+	var got []db.MessageFlagSet
+
+	err := e.write(func(ctx context.Context, tx db.Transaction) error {
+		if err := tx.SetFlagsOnMessages(ctx, []imap.InternalMessageID{r1.InternalID, r2.InternalID}, imap.NewFlagSet()); err != nil {
+			return err
+		}
+
+		var err error
+		got, err = tx.GetMessagesFlags(ctx, []imap.InternalMessageID{r1.InternalID, r2.InternalID})
+
+		return err
+	})
+
+	bad := err != nil || len(got) != 2
+
+	for _, f := range got {
+		if f.FlagSet.Len() != 0 {
+			bad = true
+		}
+	}
+
+	settle(t, "F-C08e", bad, fmt.Sprintf("SetFlagsOnMessages([m1 m2], {}) : error %v, flags afterwards %+v (want nil and no flags; the only caller skips the call for an empty set, so STORE FLAGS () leaves the old flags in the database)", err, got))
+}
+
 // F-C08d: Add(Perm)FlagsToAllMailboxes splice the flag names into the SQL text.
 func TestKnown_F_C08d(t *testing.T) {
+	reproduced := false
+
+	var details []string
+
 	for _, perm := range []bool{false, true} {
 		e := newKnownEnv(t)
 
@@ -372,7 +409,12 @@ func TestKnown_F_C08d(t *testing.T) {
 			return err
 		})
 
-		settle(t, "F-C08d", err != nil || !got.Contains("it's") || got.Len() != 1,
-			fmt.Sprintf("perm=%v: Add(Perm)FlagsToAllMailboxes(\"it's\") (' is a legal atom character): error %v, flags afterwards %q", perm, err, got.ToSlice()))
+		if err != nil || !got.Contains("it's") || got.Len() != 1 {
+			reproduced = true
+		}
+
+		details = append(details, fmt.Sprintf("perm=%v: error %v, flags afterwards %q", perm, err, got.ToSlice()))
 	}
+
+	settle(t, "F-C08d", reproduced, fmt.Sprintf("Add(Perm)FlagsToAllMailboxes(\"it's\") (' is a legal atom character): %v", details))
 }
